@@ -173,6 +173,15 @@ func (s *streamHTTP) readMsg(c Codec, b []byte) (int, []byte, error) {
 		}
 		b = append(b, s.rbuf...)
 		b, n, err := codec.ReadNext(b, s.r, s.opts.maxReceiveMessageSize)
+		if err == io.EOF && n == 0 {
+			// End of the body and no message: report the end of the stream
+			// instead of an empty message.
+			s.rEOF = true
+			if len(b) > 0 {
+				return count, nil, io.ErrUnexpectedEOF // ended inside a message
+			}
+			return count, nil, io.EOF
+		}
 		if err == io.EOF {
 			s.rEOF, err = true, nil
 		}
